@@ -34,7 +34,7 @@ const (
 )
 
 func TestMain(m *testing.M) {
-	vlib.Rule("C17: rapid-generated chunk lists (0-12 chunks, offsets/sizes over a 64-byte space incl. size 0, mtimes distinct / tied / all equal, file keys in random order, ids as string or Fid struct), chunk bytes a fixed function of (file key, position) served by an httptest volume stub. Checked against a reference overlay (newest covering chunk per byte, any of the tied ones accepted, zero in holes): NonOverlappingVisibleIntervals, ViewFromChunks for every window [a,b) (sampled for long files), ChunkReadAt.ReadAt for every window with zeroed and 0xAA-prefilled buffers through a preloaded cache, and for sampled windows through a nil and a real tiny TieredChunkCache over HTTP; CompactFileChunks; lists folded into (nested) manifests with merge factor 2-4 and resolved back; StreamContent. Bounded-exhaustive: all lists of <=2 chunks over 8 bytes and 3 chunks over 5 bytes with every weak ordering of mtimes (quick), <=3 chunks over 8 bytes and 4 chunks over 5 bytes (thorough). Metamorphic: the content is unchanged when the same chunks are listed in another order and when a folded list is re-ordered and folded again. Non-trivial = >=2 overlapping chunks, or a hole below the file size, or a manifest. Distinct = distinct chunk list + file size + cache kind + manifest shape.")
+	vlib.Rule("C17: rapid-generated chunk lists (0-12 chunks, offsets/sizes over a 64-byte space incl. size 0, mtimes distinct / tied / all equal, file keys in random order, ids as string or Fid struct), chunk bytes a fixed function of (file key, position) served by an httptest volume stub. Checked against a reference overlay (newest covering chunk per byte, any of the tied ones accepted, zero in holes): NonOverlappingVisibleIntervals, ViewFromChunks for every window [a,b) (sampled for long files), ChunkReadAt.ReadAt for every window with zeroed and 0xAA-prefilled buffers through a preloaded cache, and for sampled windows through a nil and a real tiny TieredChunkCache over HTTP; CompactFileChunks; lists folded into (nested) manifests with merge factor 2-4 and resolved back; StreamContent. Bounded-exhaustive: all lists of <=2 chunks over 8 bytes and 3 chunks over 5 bytes with every weak ordering of mtimes (quick), <=3 chunks over 8 bytes and 4 chunks over 5 bytes (thorough). Metamorphic: the content is unchanged when the same chunks are listed in another order and when a folded list is re-ordered and folded again. Fetch faults (TestPropReadAtFaults): on ONE ChunkReadAt a generated sequence of 2-6 ReadAt calls (offset/end biased to view borders, to the position where the previous call met its first failing chunk, or sequential), where for single calls a generated set of chunks (1-2 views, preferably inside the window but not its first chunk, or a whole volume id) fails to be fetched - lookup error, HTTP 404, or connection lost mid-body from the volume stub - and works again for the next call; the chunk cache never hides a fault (stores nothing, or stores on SetChunk but drops and refuses failing chunks, or nil tiered cache). Every call must return exactly the overlay bytes, or a non-EOF error after a correct prefix that stops inside a chunk whose fetch was made to fail; afterwards the whole file must read back. Non-trivial = >=2 overlapping chunks, or a hole below the file size, or a manifest; for the fault sequences = at least one ReadAt had a fetch fault injected on a chunk inside its window (class readat-fault-error-returned counts the cases where the error surfaced, readat-after-fault-same-chunk those where the next call started in the chunk that had just failed). Distinct = distinct chunk list + file size + cache kind + manifest shape (+ call/fault sequence).")
 	vlib.Assume("C17: file keys are distinct within a file (the master never hands out a key twice, C13); offsets are >= 0; the reader's file size is >= the end of the last chunk (filer.FileSize takes the maximum); chunks are neither encrypted nor compressed (C33); CompactFileChunks is given data chunks only, as its three callers do.")
 	vlib.Main(m)
 }
